@@ -1203,3 +1203,20 @@ func init() {
 		return fromBoolTerm(mkAndN(static(x), static(y), same))
 	})
 }
+
+func init() {
+	// ojg.AppendJSONString(buf, s, htmlSafe): the buffer may hold symbolic bytes;
+	// the text appended only depends on the (concrete) string.
+	reg("github.com/ohler55/ojg.AppendJSONString", func(fr *frame, fn *ssa.Function, args []Val) Val {
+		s, ok := args[1].(string)
+		if !ok {
+			unsupported("ojg.AppendJSONString of a string with symbolic bytes (external module, no model)")
+		}
+		nf, has := nativeFuncs["github.com/ohler55/ojg.AppendJSONString"]
+		if !has {
+			unsupported("external function github.com/ohler55/ojg.AppendJSONString")
+		}
+		out := nf.Call([]reflect.Value{reflect.ValueOf([]byte(nil)), reflect.ValueOf(s), reflect.ValueOf(args[2].(bool))})
+		return appendVals(args[0].([]Val), strBytes(string(out[0].Bytes())))
+	})
+}
